@@ -13,10 +13,10 @@ import (
 // ref is an independent, deliberately naive last-write-wins reference in Go: the property
 // oracle for reads (what a read must return given the acknowledged writes and deletes).
 type ref struct {
-	ftypes map[string]byte                 // meas/field -> type
-	data   map[string]map[int64]string     // series/field -> t -> value token
-	meas   map[string]string               // series/field -> measurement
-	index  map[string]string               // series -> measurement (series known to the index)
+	ftypes map[string]byte             // meas/field -> type
+	data   map[string]map[int64]string // series/field -> t -> value token
+	meas   map[string]string           // series/field -> measurement
+	index  map[string]string           // series -> measurement (series known to the index)
 	// layout facts for failure signatures: per key, points written and snapshot files that hold it
 	written map[string]int
 	dirty   map[string]bool
